@@ -15,6 +15,9 @@ type smtRegex struct {
 	anchorEnd   bool
 	ngroups     int
 	groups      []string
+	minLen      int
+	firstLit    string // literal prefix every match starts with ("" if none)
+	lastLit     string
 }
 
 func (r *smtRegex) core() string { return r.body }
@@ -61,6 +64,11 @@ func regexToSMT(pat string) (*smtRegex, error) {
 			return nil, err
 		}
 		parts = append(parts, t)
+		out.minLen += reMinLen(s)
+	}
+	if len(subs) > 0 {
+		out.firstLit = reEdgeLit(subs[0], true)
+		out.lastLit = reEdgeLit(subs[len(subs)-1], false)
 	}
 	switch len(parts) {
 	case 0:
@@ -178,4 +186,60 @@ func (o *smtRegex) conv(re *syntax.Regexp) (string, error) {
 		return "(re.union " + strings.Join(parts, " ") + ")", nil
 	}
 	return "", fmt.Errorf("regexp operator %v not supported", re.Op)
+}
+
+func reMinLen(re *syntax.Regexp) int {
+	switch re.Op {
+	case syntax.OpLiteral:
+		n := 0
+		for _, r := range re.Rune {
+			n += len(string(r))
+		}
+		return n
+	case syntax.OpCharClass, syntax.OpAnyChar, syntax.OpAnyCharNotNL:
+		return 1
+	case syntax.OpCapture, syntax.OpPlus:
+		return reMinLen(re.Sub[0])
+	case syntax.OpRepeat:
+		return re.Min * reMinLen(re.Sub[0])
+	case syntax.OpConcat:
+		n := 0
+		for _, s := range re.Sub {
+			n += reMinLen(s)
+		}
+		return n
+	case syntax.OpAlternate:
+		m := -1
+		for _, s := range re.Sub {
+			if k := reMinLen(s); m < 0 || k < m {
+				m = k
+			}
+		}
+		if m < 0 {
+			return 0
+		}
+		return m
+	}
+	return 0
+}
+
+func reEdgeLit(re *syntax.Regexp, first bool) string {
+	switch re.Op {
+	case syntax.OpLiteral:
+		if re.Flags&syntax.FoldCase != 0 || len(re.Rune) == 0 {
+			return ""
+		}
+		if first {
+			return string(re.Rune[0])
+		}
+		return string(re.Rune[len(re.Rune)-1])
+	case syntax.OpCapture:
+		return reEdgeLit(re.Sub[0], first)
+	case syntax.OpConcat:
+		if first {
+			return reEdgeLit(re.Sub[0], first)
+		}
+		return reEdgeLit(re.Sub[len(re.Sub)-1], first)
+	}
+	return ""
 }
